@@ -1110,9 +1110,49 @@ fn child_main(arg: &str) -> R<()> {
     Ok(())
 }
 
+
+// =========================================================================================
+// Concurrent stress on the real code: several threads issue random requests drawn from the
+// script's requests at the same time; a watchdog requires that requests keep completing.
+
+fn stress(d: &Driver, seed: u64, threads: usize, secs: u64) -> Value {
+    use std::sync::atomic::{AtomicBool, AtomicU64, Ordering};
+    let pool: Arc<Vec<(String, Value)>> = Arc::new(d.recs.iter()
+        .filter(|r| r.outcome != "panic" && r.label != "malformed parameters" && !r.label.contains("retried") && !r.label.contains("waits") && r.method != "brc20_initialise")
+        .map(|r| (r.method.clone(), r.params.clone())).collect());
+    let done = Arc::new(AtomicU64::new(0));
+    let panics = Arc::new(AtomicU64::new(0));
+    let stop = Arc::new(AtomicBool::new(false));
+    let mut rng = crate::rng::Rng::new(seed);
+    for _ in 0..threads {
+        let (pool, done, panics, stop, m) = (pool.clone(), done.clone(), panics.clone(), stop.clone(), d.methods.clone());
+        let mut r = rng.fork();
+        std::thread::spawn(move || {
+            let rt = new_rt();
+            while !stop.load(Ordering::Relaxed) {
+                let (method, params) = r.pick(&pool[..]).clone();
+                let (o, _) = request(&rt, &m, &method, &params);
+                if o == "panic" { panics.fetch_add(1, Ordering::Relaxed); }
+                done.fetch_add(1, Ordering::Relaxed);
+            }
+        });
+    }
+    let t0 = Instant::now();
+    let (mut last, mut last_change, mut stalled) = (0u64, Instant::now(), false);
+    while t0.elapsed() < Duration::from_secs(secs) {
+        std::thread::sleep(Duration::from_millis(100));
+        let n = done.load(Ordering::Relaxed);
+        if n != last { last = n; last_change = Instant::now(); }
+        // a read-only call that meets an open block legitimately waits up to five seconds
+        if last_change.elapsed() > Duration::from_secs(12) { stalled = true; break; }
+    }
+    stop.store(true, Ordering::Relaxed);
+    json!({"threads": threads, "seconds": secs, "requests_completed": done.load(Ordering::Relaxed), "panics": panics.load(Ordering::Relaxed), "stalled": stalled, "pool": pool.len()})
+}
+
 // =========================================================================================
 
-pub fn run(out: &Path, _seed: u64, thorough: bool) -> R<()> {
+pub fn run(out: &Path, seed: u64, thorough: bool) -> R<()> {
     let args: Vec<String> = std::env::args().collect();
     if let Some(i) = args.iter().position(|a| a == "--child") {
         return child_main(args.get(i + 1).map(|s| s.as_str()).unwrap_or("{}"));
@@ -1239,6 +1279,15 @@ pub fn run(out: &Path, _seed: u64, thorough: bool) -> R<()> {
         failures.push(json!({"what": format!("a request panicked while the lock programs were recorded: {} [{}]", r.method, r.label), "case": {"method": r.method, "params": r.params}}));
     }
 
+    // ---- concurrent stress (only meaningful once the programs are disciplined: otherwise it may hang) ----
+    let stress_report = if violations.is_empty() {
+        let r = if thorough { stress(&d, seed, 8, 30) } else { stress(&d, seed, 4, 3) };
+        if r["stalled"].as_bool().unwrap_or(false) {
+            failures.push(json!({"what": "concurrent stress: no request completed for 12 seconds (requests are blocked)", "case": r.clone()}));
+        }
+        r
+    } else { json!({"skipped": "undisciplined programs present"}) };
+
     // ---- meta ---------------------------------------------------------------------------------
     let nontrivial = progs.iter().filter(|p| !p.is_empty()).count();
     let outcome_counts = d.recs.iter().fold(BTreeMap::new(), |mut m: BTreeMap<String, u64>, r| { *m.entry(r.outcome.clone()).or_insert(0) += 1; m });
@@ -1267,6 +1316,7 @@ pub fn run(out: &Path, _seed: u64, thorough: bool) -> R<()> {
         "startup_program": t_prog(&a.startup),
         "requests_with_events_from_other_threads": foreign.iter().map(|r| format!("{} [{}]", r.method, r.label)).collect::<Vec<_>>(),
         "replays": replays,
+        "concurrent_stress": stress_report,
         "generated_file_matches_this_drive": gen_same,
         "crate_root": a.root.as_ref().map(|p| p.to_string_lossy().to_string()),
         "drive_seconds": drive_s,
